@@ -484,28 +484,65 @@ func checkLookupFirst(p *Prog, r *Report, dds *ssa.Function, lookupCall *ssa.Cal
 		if f.Name() != "getTemplateIEs" {
 			continue
 		}
+		// on every path that returns a nil error: the first result is the ies field of the entry a comma-ok lookup of the
+		// store returned, and that lookup's ok result is true on the path (the lookup may be a helper spliced back, its
+		// results merged with a "not found" branch)
 		okL := true
-		eachInstr(f, func(in ssa.Instruction) {
-			rt, ok := in.(*ssa.Return)
-			if !ok {
+		nOK := 0
+		w := &absWalker{MaxPaths: 4096}
+		w.OnEnd = func(st *absState, last ssa.Instruction) {
+			rt, ok := last.(*ssa.Return)
+			if !ok || len(rt.Results) != 2 {
 				return
 			}
-			isNil, _ := retErrNil(rt)
-			_, fn, _, isIes := loadedField(retResult(rt, 0))
-			if isNil {
-				found := false
-				for _, gd := range guardsOf(in.Block()) {
-					if ex, ok := gd.If.Cond.(*ssa.Extract); ok && ex.Index == 1 && gd.Succ == 0 {
-						if _, ok := ex.Tuple.(*ssa.Lookup); ok {
-							found = true
-						}
+			isNil, known := st.nilness(rt.Results[1])
+			if known && !isNil {
+				return
+			}
+			if !known {
+				okL = false
+				return
+			}
+			res := st.resolve(rt.Results[0])
+			_, fn, base, isIes := loadedField(res)
+			if !isIes || fn != "ies" {
+				okL = false
+				return
+			}
+			found := false
+			switch bv := st.resolve(base).(type) {
+			case *ssa.Extract:
+				lk, ok := bv.Tuple.(*ssa.Lookup)
+				if !ok || !lk.CommaOk || bv.Index != 0 {
+					okL = false
+					return
+				}
+				for _, e1 := range extractOf(lk, 1) {
+					if v, known := st.bools[st.key(e1)]; known && v {
+						found = true
 					}
 				}
-				if !(isIes && fn == "ies" && found) {
-					okL = false
+			case *ssa.Lookup:
+				// plain lookup: "found" is "not nil" (only non-nil entries are ever stored)
+				if mt, ok := bv.X.Type().Underlying().(*types.Map); ok && typeName(mt.Elem()) == "pkg/collector.template" {
+					if isNil, known := st.bools["nil:"+st.key(bv)]; known && !isNil {
+						found = true
+					}
 				}
+			default:
+				okL = false
+				return
 			}
-		})
+			if !found {
+				okL = false
+				return
+			}
+			nOK++
+		}
+		if len(f.Blocks) > 0 {
+			w.walk(newAbsState(), f.Blocks[0], 0)
+		}
+		okL = okL && nOK > 0 && !w.Overflow && !w.Looped
 		r.Check(okL, "R-GATE.lookup", fnKey(f)+": returns the stored field list only when found", p.pos(f.Pos()), "(tpl.ies, nil) on the found edge, an error otherwise", "the lookup can succeed without a stored template or returns something other than the stored list", true)
 	}
 }
@@ -648,13 +685,26 @@ func builderErrorsInfeasible(p *Prog, dts *ssa.Function) (bool, string) {
 			return
 		}
 		last := rt.Results[len(rt.Results)-1]
-		if c, ok := last.(*ssa.Call); ok && c.Call.IsInvoke() && c.Call.Method.Name() == "PrepareRecord" {
-			return
-		}
-		if ex, ok := last.(*ssa.Extract); ok {
-			if c, ok := ex.Tuple.(*ssa.Call); ok && c.Call.IsInvoke() && c.Call.Method.Name() == "PrepareRecord" {
-				return
+		// every value that can flow into the returned error (a nil edge of a merged value is no error)
+		allPrepare, some := true, false
+		for _, lf := range phiLeaves(last, 4) {
+			if k, ok := lf.(*ssa.Const); ok && k.IsNil() {
+				continue
 			}
+			some = true
+			isPrep := false
+			if c, ok := lf.(*ssa.Call); ok && c.Call.IsInvoke() && c.Call.Method.Name() == "PrepareRecord" {
+				isPrep = true
+			}
+			if ex, ok := lf.(*ssa.Extract); ok {
+				if c, ok := ex.Tuple.(*ssa.Call); ok && c.Call.IsInvoke() && c.Call.Method.Name() == "PrepareRecord" {
+					isPrep = true
+				}
+			}
+			allPrepare = allPrepare && isPrep
+		}
+		if some && allPrepare {
+			return
 		}
 		// fallback: neither Data nor Template (two != facts on the loaded setType)
 		ne := 0
